@@ -92,16 +92,54 @@ def replay_loader(modname):
 _tree = slicer.parse(lx.__file__)
 _init = slicer.find(_tree, ast.FunctionDef, lambda n: n.name == "initialize_lua")
 _flt = slicer.find(_init, ast.FunctionDef, lambda n: n.name == "filter_attribute_access")
-FILTER, FILTER_SRC = slicer.closure(_flt, dict(vars(lx)), f"luaexec.py:{_flt.lineno}")
+# the filter is re-created (together with any state of initialize_lua it closes over, e.g. a decision cache) per use
+MAKE_FILTER, FILTER_SRC = slicer.closure_factory(_init, _flt, dict(vars(lx)), f"luaexec.py:{_flt.lineno}")
+FILTER = MAKE_FILTER()
 HELPER = partial(lambda ctx, x: x, object())
 
 
-def denied(obj, name, setting) -> bool:
+def denied(obj, name, setting, flt=None) -> bool:
     try:
-        FILTER(obj, name, setting)
+        (flt or FILTER)(obj, name, setting)
     except AttributeError:
         return True
     return False
+
+
+def filter_history_ok(name: str, first_setting: bool, setting: bool, first_kind: int) -> bool:
+    """the decision depends on the object and the name of THIS request only: after any earlier request with the same name on
+    another kind of object (a tuple, an exception, a frame closure), an attribute of a context-bound helper is still refused"""
+    flt = MAKE_FILTER()
+    other = [(1, 2), ValueError("x"), (lambda: 0)][first_kind]
+    denied(other, name, first_setting, flt)
+    return denied(HELPER, name, setting, flt)
+
+
+def replay_filter_history(name, first_setting, setting, first_kind):
+    from vf.wtpfix import close, new_ctx
+
+    probe = (
+        "local p = {}\n"
+        "function p.f(frame)\n"
+        "  local first = {frame.getTitle, select(2, pcall(error, 'x'))}\n"
+        "  for _, o in ipairs(first) do pcall(function() return o." + (name if name.isidentifier() else "args") + " end) end\n"
+        "  local out = {}\n"
+        "  for _, n in ipairs({'args', 'func', 'keywords', '" + (name if name.isidentifier() else "args") + "'}) do\n"
+        "    local ok, v = pcall(function() return mw_python_get_page_content[n] end)\n"
+        "    if not ok then ok, v = pcall(function() return _python_loader[n] end) end\n"
+        "    if ok and v ~= nil then out[#out + 1] = n .. '=' .. tostring(v):sub(1, 40) end\n"
+        "  end\n"
+        "  return #out == 0 and 'DENIED' or table.concat(out, ';')\n"
+        "end\nreturn p"
+    )
+    w = new_ctx(modules={"vfflt": probe})
+    w.start_page("T")
+    try:
+        got = w.expand("{{#invoke:vfflt|f}}")
+    except Exception as e:  # noqa: BLE001
+        got = f"EXC {type(e).__name__}: {e}"
+    close(w)
+    return (f"Lua module reads .{name if name.isidentifier() else 'args'} on a frame closure first, then on the Python helpers exposed to the sandbox", got != "DENIED", f"an attribute of a context-bound helper is granted after the same name was requested on another object: {got[:160]}")
 
 
 def filter_ok(name: str, on_partial: bool, setting: bool, as_bytes: bool) -> bool:
